@@ -254,7 +254,7 @@ func runCase(c tcase, creds []credEntry, seed int64) outcome {
 	r.Read(salt)
 	snonce := make([]byte, 18)
 	for i := range snonce {
-		snonce[i] = "ABCDEFGHIJKLMNOPQRSTUVWXYZabcdefghijklmnopqrstuvwxyz0123456789+/%$)("[r.Intn(70)]
+		snonce[i] = "ABCDEFGHIJKLMNOPQRSTUVWXYZabcdefghijklmnopqrstuvwxyz0123456789+/%$)("[r.Intn(68)]
 	}
 	suser, spass := ce.suser, ce.spass
 	if c.mech == "plain" {
@@ -459,7 +459,9 @@ func child(creds []credEntry, seed int64) {
 		fmt.Fprintf(out, "BEGIN %s\n", sp[0])
 		out.Flush()
 		o := runCase(parseCase(sp[1]), creds, seed)
-		sort.Strings(o.feats[5:])
+		if len(o.feats) > 5 {
+			sort.Strings(o.feats[5:])
+		}
 		fmt.Fprintf(out, "RES %s | %s | %s | %s\n", sp[0], o.res, strings.Join(o.feats, ","), clean(strings.Join(o.notes, "; ")))
 		out.Flush()
 	}
